@@ -124,9 +124,14 @@ def _main(E, A):
 
             def fatal(s="", code=1):
                 log.append(("fatal", code))
+                # the parent process sees only the low 8 bits of the status: "exits non-zero" needs 1 <= code <= 255
+                if isinstance(code, SymInt):
+                    E.oblige("post:exit-status-is-a-nonzero-byte" + tag, z3.And(lift(code) >= 1, lift(code) <= 255))
+                else:
+                    E.oblige("post:exit-status-is-a-nonzero-byte" + tag, z3.BoolVal(type(code) is int and 1 <= code <= 255))
                 raise Fatal(s, code)
-            M.parse, M.lint, M.render, M.fatal = parse, lint, render, fatal
             tag = "[q=%s,c=%s,O=%s,F=%s,lang=%r,parse=%s,render=%s]" % (disable_linter, check, opt, flt, lang, parse_out, render_out)
+            M.parse, M.lint, M.render, M.fatal = parse, lint, render, fatal
             try:
                 M.main("x.bitproto", lang=lang, outdir="out", disable_linter=disable_linter, check=check,
                        enable_optimize=opt, filter_messages=flt, endian="big")
@@ -593,3 +598,44 @@ def _fmt_int(E, A):
             FM.__dict__.pop("isinstance", None)
         else:
             FM.isinstance = saved
+
+
+@gproof("py:_main.run_bitproto", MAIN, "run_bitproto", ["C17"], must=["post:"], calls=["main", "argparse (external)"],
+        assumes=["argparse delivers the option values as typed on the command line (external)"])
+def _run_bitproto(E, A):
+    """the command line reaches main() unchanged: -F value split at commas with every name stripped of surrounding white space (so
+    `-F "A, B"` selects A and B), None without -F, a non-empty -F value never becomes an empty / falsy list (so -F without -O is
+    still refused); -O, -c, -q, --endian, language, file and output directory are passed through"""
+    import sys
+    import bitproto._main as M
+    saved_main, saved_argv = M.main, sys.argv
+    cases = [
+        (["c", "f.bitproto", "out", "-O", "-F", "A,B"], dict(filter_messages=["A", "B"], enable_optimize=True, lang="c", outdir="out")),
+        (["c", "f.bitproto", "out", "-O", "-F", "A, B"], dict(filter_messages=["A", "B"])),
+        (["go", "f.bitproto", "out", "-O", "-F", " A "], dict(filter_messages=["A"], lang="go")),
+        (["c", "f.bitproto", "out", "-O", "-F", "A ,B , C"], dict(filter_messages=["A", "B", "C"])),
+        (["c", "f.bitproto", "out", "-O"], dict(filter_messages=None, enable_optimize=True)),
+        (["py", "f.bitproto", "out"], dict(filter_messages=None, enable_optimize=False, lang="py", check=False, disable_linter=False, endian="both")),
+        (["c", "f.bitproto", "out", "-O", "--endian", "big", "-q"], dict(endian="big", disable_linter=True)),
+        (["-c", "f.bitproto"], dict(check=True)),
+    ]
+    try:
+        for argv, want in cases:
+            got = {}
+
+            def main(filepath, **kw):
+                got.update(kw, filepath=filepath)
+            M.main = main
+            sys.argv = ["bitproto"] + argv
+            M.run_bitproto()
+            ok = all(got.get(k) == v for k, v in want.items()) and "f.bitproto" in (got.get("filepath"), got.get("lang"))
+            E.oblige("post:%s%s" % (" ".join(argv), "" if ok else " (main got %r)" % (got,)), z3.BoolVal(ok))
+        # a -F value without any name (only separators / blanks) is still a present -F: never silently dropped
+        for val in (" , ", " ", ","):
+            got = {}
+            M.main = lambda filepath, **kw: got.update(kw)
+            sys.argv = ["bitproto", "c", "f.bitproto", "out", "-F", val]
+            M.run_bitproto()
+            E.oblige("post:-F %r stays present" % val, z3.BoolVal(bool(got.get("filter_messages"))))
+    finally:
+        M.main, sys.argv = saved_main, saved_argv
